@@ -34,7 +34,7 @@ ASSUMPTIONS = ["six 1.17 shim on sys.path (pinned six 1.10 cannot import protobu
                "context switches happen at simulated primitives and at PEP-669 LINE/PY_START events of "
                "yowsup/consonance/asyncore code; C extension calls are atomic",
                "Noise primitives of dissononce are shared by client and responder double"]
-BUDGET = {"quick": (3000, 150), "thorough": (60000, 2400)}
+BUDGET = {"quick": (8000, 170), "thorough": (80000, 2400)}
 FAULTS = ["tcp_cut", "tcp_coalesce", "connect_refused", "peer_fin", "rst", "short_send", "srv_bad_serverhello",
           "srv_close_after_hello", "srv_frames_behind_hello", "client_disconnect_in_handshake"]
 PROBES = ["variant_XX", "variant_IK", "variant_XXfallback", "config_rewritten", "frame_queued_while_handshake",
@@ -90,6 +90,23 @@ def case(idx, tier, base):
     r = stream(seed, "workload")
     variant = ["XX", "IK", "FB"][idx % 3]
     natt = r.choice([1, 1, 2, 2, 3, 4])
+    if idx % 4 == 3:
+        # a quarter of the cases are tiny (one login, one or two frames right behind the ServerHello, hardly anything sent):
+        # few steps per run, so that a single well-placed context switch (handshake completing while the network thread
+        # is between two statements) is hit with a useful probability
+        tr = stream(seed, "tiny")
+        n_s2c = tr.choice([1, 1, 2])
+        att = {"cut": None, "corrupt": False, "early": n_s2c, "s2c": [{"i": i, "big": None} for i in range(n_s2c)],
+               "c2s": [{"i": 10 + i, "big": None} for i in range(tr.choice([0, 1]))], "cut_after": 0}
+        sched = dict(tr.choice([{"policy": "demote", "sticky": 0.0, "preempt": "line", "p": 0.01},
+                                {"policy": "demote", "sticky": 0.0, "preempt": "line", "p": 0.03},
+                                {"policy": "random", "sticky": 0.9, "preempt": "line", "p": 0.1},
+                                {"policy": "demote", "sticky": 0.0, "preempt": "call", "p": 0.1}]))
+        net = {"lat": tr.choice([[0.0, 0.0], [0.0001, 0.001]]), "piece": tr.choice([[4096, 65536], [16, 1024], [1, 64]]),
+               "recv_cap": 1024, "short_send_p": 0.0}
+        cfg = {"edge": None, "mcc": None, "mnc": None, "pushname": None, "passive": False, "fdid": None}
+        return {"seed": seed, "variant": variant, "cfg": cfg, "sched": sched, "net": net,
+                "dispatcher": "socket" if tr.random() < 0.25 else "asyncore", "attempts": [att], "tiny": True}
     attempts = []
     sid = 0
     for a in range(natt):
